@@ -454,11 +454,11 @@ func writeEvidence(ev *Evidence) {
 
 var worldRules = map[string]string{
 	"C02": "seeded histories of ALL public operations (parse/ParseRef, three resolve ways, nine setters, Clone, SearchParams materialisation/mutation/reads, SetSearchParams, NewUrl, PercentEncodeString, Canonicalize) under swarm-drawn configurations (every subset of the 19+6 options reachable, 4 predefined profiles) with hostile bytes and long runs; oracle after every event: no panic (recover), statement budget 10^6+1000L+5L^2 on the injected yield counter (deterministic hang detector), URL-or-error contract, every getter of every live object works",
-	"C03": "seeded histories: parse(input[,base]) then nine-setter sequences (+ observer reads); after every event every live URL is serialized and re-parsed with the default parser and must give identical href + nine getters; states the reference model shows the standard itself does not round-trip are exempt (mechanically, no hand list)",
-	"C04": "seeded histories: parse then setters and resolutions of further references against any live URL; after every event ten structural invariants of the URL record are evaluated on public getters of every live URL",
+	"C03": "seeded histories: parse(input[,base string]) then nine-setter sequences (+ observer reads), in a third of the plans also resolutions against live URL objects in whatever state their history left them, and clones; after every event every live URL is serialized and re-parsed with the default parser and must give identical href + nine getters; exempt are only states that the reference model, fed the same calls in lockstep (creating calls included, resolved against the model's state of the base), reaches as well and does not round-trip either (mechanically, no hand list)",
+	"C04": "seeded histories: parse then setters and resolutions of further references against any live URL; in a sixth of the plans also the tenth setter SetSearchParams with lists of the same URL, of other URLs and of URLs owned by a differently configured second parser (profiles, random option sets), with list mutations giving those lists content; after every event ten structural invariants of the URL record are evaluated on public getters of every live URL of the default parser",
 	"C05": "seeded histories: parse then nine-setter sequences; the executable reference model of the standard's API setters receives the same calls (never re-synchronised); href + nine getters must agree after every event",
 	"C11": "seeded histories of parameter-list operations (append/delete/set/sort/sortabs/iterate-with-edit, re-initialisation through SetSearch, aliased handles) against an ordered-list model; after every event: list equality, Get/GetAll/Has for all names in play, urlencoded parse of the query per the standard, serialize-then-parse identity",
-	"C12": "seeded interleavings of two handle kinds on one state: parameter mutations (on early, late and stale handles), SetSearch, the other eight setters, observer reads; after every event the clause selected by the last writer of the query (list->url or url->list) is evaluated for every handle ever returned",
+	"C12": "seeded interleavings of two handle kinds on one state: parameter mutations (on early, late and stale handles), SetSearch, the other eight setters, observer reads; in a quarter of the plans the list is replaced through SetSearchParams by one of the URL's own handles or a SearchParams.Clone snapshot of one (afterwards only what SearchParams() returns is taken to be the URL's list); after every event the clause selected by the last writer of the query (list->url or url->list) is evaluated for every handle ever returned",
 	"C13": "seeded multi-party histories: derive (resolve / Clone, chains and siblings), then setters and parameter mutations on either side; after every event every object other than the targeted one must be observationally unchanged (getters + parameter lists), and every object on either side of a derivation must behave like a pristine twin parsed from its serialization",
 	"C19": "seeded histories: parse, nine setters (biased to host/hostname/port/protocol), resolutions, clones, observer reads; after every event the eight derived accessors of every live URL are compared with what the primary getters imply",
 }
